@@ -1,3 +1,4 @@
+#![allow(dead_code, unused_imports)]
 //! E7 advsearch: bounded exhaustive search inside the sparse-coset family (DESIGN 3.2).
 //!
 //! Family: every z_j is supported on the exponents that are multiples of 256/m. The library's forward
@@ -12,6 +13,7 @@
 
 use crate::forge::VCase;
 use crate::subject::guard;
+#[cfg(feature = "kernels")]
 use fips204::verif_hooks as hk;
 use rayon::prelude::*;
 use refmodel::{hex, mod_q, unhex, Mode, Params, PkCtx, Poly, POLY0, Q};
@@ -36,6 +38,7 @@ fn to_mont_scalar(v: i64) -> i64 {
 fn inv_mod(a: i64) -> i64 { refmodel::pow_mod(a, (Q - 2) as u64) }
 
 /// V (m x m): block values of the library's forward transform for unit inputs; and its inverse mod q
+#[cfg(feature = "kernels")]
 fn block_matrix(m: usize) -> (Vec<Vec<i64>>, Vec<Vec<i64>>) {
     let step = 256 / m;
     let mut v = vec![vec![0i64; m]; m];
@@ -84,6 +87,7 @@ pub struct Eval {
 }
 
 /// exact evaluation with the real kernels
+#[cfg(feature = "kernels")]
 pub fn evaluate<const K: usize, const L: usize>(p: &'static Params, rho: &[u8; 32], z: &[Poly]) -> Eval {
     let a_ref = refmodel::expand_a(p, rho);
     let a: [[Poly; L]; K] = core::array::from_fn(|k| core::array::from_fn(|j| a_ref[k][j]));
@@ -108,6 +112,7 @@ pub fn evaluate<const K: usize, const L: usize>(p: &'static Params, rho: &[u8; 3
     }
     ev
 }
+#[cfg(feature = "kernels")]
 pub fn evaluate_dyn(p: &'static Params, rho: &[u8; 32], z: &[Poly]) -> Eval {
     match p.id {
         44 => evaluate::<4, 4>(p, rho, z),
@@ -125,6 +130,7 @@ pub struct SearchResult {
 }
 
 /// bounded exhaustive search for (row, sign) in the family with m blocks and top-T lists
+#[cfg(feature = "kernels")]
 pub fn search(p: &'static Params, rho: &[u8; 32], row: usize, sign: i64, m: usize, t: usize) -> SearchResult {
     let step = 256 / m;
     let (_v, w) = block_matrix(m);
@@ -240,6 +246,7 @@ pub fn search(p: &'static Params, rho: &[u8; 32], row: usize, sign: i64, m: usiz
 }
 
 /// m = 1: complete enumeration of the family (all admissible constants per polynomial; the objective separates)
+#[cfg(feature = "kernels")]
 pub fn search_m1(p: &'static Params, rho: &[u8; 32], row: usize, sign: i64) -> (Vec<Poly>, f64, u64) {
     let a_hat = refmodel::expand_a(p, rho);
     let g = p.gamma1 - p.beta;
@@ -328,12 +335,14 @@ pub fn save_witnesses(p: &'static Params, ws: &[(String, [u8; 32], Vec<Poly>, f6
 pub fn slot_max_case(p: &'static Params, rho: &[u8; 32], k: usize, n: usize, sign: i64) -> (VCase, i64) {
     let a_hat = refmodel::expand_a(p, rho);
     let g = p.gamma1 - p.beta - 1;
-    let tm = |a: i64| i64::from(hk::partial_reduce64(a << 32));
+    // guide arithmetic: transcriptions of the Montgomery / Barrett steps (the verdict comes from verify() itself)
+    let tm = |a: i64| to_mont_scalar(a);
+    let mont_guide = |a: i64| mont(a);
     let mut z = vec![POLY0; p.l];
     let mut total = 0i64;
     for j in 0..p.l {
         let coeff = i64::from(a_hat[k][j][n]);
-        let best = (-g..=g).into_par_iter().map(|a| (i64::from(hk::mont_reduce(coeff * tm(a))) * sign, a)).max().unwrap();
+        let best = (-g..=g).into_par_iter().map(|a| (mont_guide(coeff * tm(a)) * sign, a)).max().unwrap();
         z[j][0] = best.1 as i32;
         total += best.0;
     }
@@ -342,11 +351,11 @@ pub fn slot_max_case(p: &'static Params, rho: &[u8; 32], k: usize, n: usize, sig
     for ci in 0..48usize {
         let c_tilde = refmodel::shake256(&[b"slot-max", &(ci as u32).to_le_bytes()], p.ctilde_len());
         let c = refmodel::sample_in_ball(p, &c_tilde);
-        let c_hat_n = i64::from(hk::ntt(&[c])[0][n]);
+        let c_hat_n = refmodel::mod_pm(i64::from(refmodel::ntt(&c)[n]), Q);
         for b0 in 0..1024i64 {
-            let x = i64::from(hk::mont_reduce(tm(b0) << 13));
+            let x = mont_guide(tm(b0) << 13);
             let t = tm(x);
-            let term = -i64::from(hk::mont_reduce(c_hat_n * t)) * sign;
+            let term = -mont_guide(c_hat_n * t) * sign;
             if term > best_t.0 {
                 best_t = (term, ci, b0);
             }
